@@ -31,6 +31,23 @@ theorem subR0 {k : String} {i : Nat} {x : Expr} {ts : List Tok}
   · exact R.paren (hx 0 h0)
   · exact hx 0 h0
 
+/-- parentheses of its own around an operand that is already rendered admissibly keep it admissible (the `-(-2147483648)` case) -/
+theorem subRx {k : String} {i c : Nat} {x : Expr} {ts : List Tok} (extra : List Tok → Bool)
+    (hx : ∀ ctx, bareOK D.tbl ctx x = true → R D.tbl mt false ctx x ts)
+    (h0 : bareOK D.tbl 0 x = true)
+    (hop : opOK D k i c x = true) :
+    R D.tbl mt false c x (wrap (extra (wrap (pparen D k i x) ts)) (wrap (pparen D k i x) ts)) := by
+  have hin : ∀ c', opOK D k i c' x = true → R D.tbl mt false c' x (wrap (pparen D k i x) ts) := fun c' h => subR D mt hx h0 h
+  cases hE : extra (wrap (pparen D k i x) ts) with
+  | false => simpa [wrap] using hin c hop
+  | true =>
+    simp only [wrap, if_true]
+    -- inside the new parentheses the context is 0, where every operand may stand
+    have h00 : opOK D k i 0 x = true := by simp [opOK, h0]
+    have := hin 0 h00
+    simp only [wrap] at this
+    exact R.paren this
+
 theorem bareOK_zero (T : Tbl) (x : Expr) : bareOK T 0 x = true := by
   unfold bareOK; split <;> simp
 
@@ -59,7 +76,7 @@ theorem lprint_R : ∀ (e : Expr),
     simp only [good, Bool.and_eq_true, Bool.not_eq_true'] at h
     simp only [bareOK, lvlOf, decide_eq_true_eq] at hb
     simp only [lprint]
-    exact R.pre h.1.1.1 h.1.1.2 hb (subR D mt (ih.1 h.2) (bareOK_zero _ _) h.1.2)
+    exact R.pre h.1.1.1 h.1.1.2 hb (subRx D mt (negLead D mt t) (ih.1 h.2) (bareOK_zero _ _) h.1.2)
   | quant k id ty x ih =>
     refine ⟨fun h ctx hb => ?_, fun h => by simp [good] at h⟩
     simp only [good, Bool.and_eq_true] at h
